@@ -210,8 +210,9 @@ def build(tier):
             for b in range(4):
                 combos.append((pre, a, b))
     if tier == 'quick':
-        # every (pre, A) with the two interrupting operations that write to the directory (lock, cleanup) and release
-        combos = [(p, a, b) for (p, a, b) in combos if b in (0, 1, 3)]
+        # interrupting operations that write to the directory (lock, release, cleanup); empty legacy file and the
+        # cleanup-as-interrupted-operation rows are left to the thorough tier
+        combos = [(p, a, b) for (p, a, b) in combos if b in (0, 1, 3) and p != 3 and a != 3]
     for pre, a, b in combos:
         name = f'sched_{PRES[pre]}_{OPS[a]}_by_{OPS[b]}'
         h = Harness(name, unwind=6, stubs=stubs, timeout=900 if tier == 'quick' else 2400,
@@ -222,6 +223,8 @@ def build(tier):
         harnesses.append(h)
     for pre in range(len(PRES)):
         for a in range(4):
+            if tier == 'quick' and (pre == 3 or a == 3):
+                continue
             name = f'crash_{PRES[pre]}_{OPS[a]}'
             h = Harness(name, unwind=6, stubs=stubs, timeout=900 if tier == 'quick' else 2400,
                         note=f'pre-state {PRES[pre]}; process 1 runs {OPS[a]} and may die at any fs call; observer calls is_locked',
